@@ -7,7 +7,6 @@ import (
 	"encoding/json"
 	"errors"
 	"fmt"
-	"io"
 	"net"
 	"os"
 	"path/filepath"
@@ -996,9 +995,13 @@ func (a *Agent) PortFwdOpen(SocketID int) error {
 	PortFwd = a.PortFwdGet(SocketID)
 
 	if PortFwd != nil {
-		if PortFwd.Conn == nil {
+		if a.portFwdConn(PortFwd) == nil {
 			/* open the connection to the target */
-			PortFwd.Conn, err = net.Dial("tcp", PortFwd.Target)
+			var conn net.Conn
+			conn, err = net.Dial("tcp", PortFwd.Target)
+			a.PortFwdsMtx.Lock()
+			PortFwd.Conn = conn
+			a.PortFwdsMtx.Unlock()
 			return err
 		} else {
 			return errors.New("rportfwd connection is already open")
@@ -1015,8 +1018,8 @@ func (a *Agent) PortFwdWrite(SocketID int, data []byte) error {
 
 	if PortFwd != nil {
 		/* write to the connection */
-		if PortFwd.Conn != nil {
-			_, err := PortFwd.Conn.Write(data)
+		if conn := a.portFwdConn(PortFwd); conn != nil {
+			_, err := conn.Write(data)
 			return err
 		} else {
 			return errors.New("rportfwd connection is empty")
@@ -1028,28 +1031,37 @@ func (a *Agent) PortFwdWrite(SocketID int, data []byte) error {
 
 func (a *Agent) PortFwdRead(SocketID int) ([]byte, error) {
 	var (
-		data    = bytes.Buffer{}
+		data    = make([]byte, 0x10000)
 		PortFwd *PortFwd
 	)
 
 	PortFwd = a.PortFwdGet(SocketID)
 
 	if PortFwd != nil {
-		if PortFwd.Conn != nil {
-			/* read from our socket to the data buffer or return error */
-			_, err := io.Copy(&data, PortFwd.Conn)
+		if conn := a.portFwdConn(PortFwd); conn != nil {
+			/* read what the target has sent so far (not until it closes the connection)
+			 * or return the error: io.EOF once the target is done */
+			length, err := conn.Read(data)
 			if err != nil {
 				return nil, err
 			}
 
 			/* return the read data */
-			return data.Bytes(), nil
+			return data[:length], nil
 		} else {
 			return nil, errors.New("rportfwd connection is empty")
 		}
 	} else {
 		return nil, fmt.Errorf("rportfwd socket id %x not found", SocketID)
 	}
+}
+
+// portFwdConn returns the forward's connection as PortFwdClose (which clears it) left it.
+func (a *Agent) portFwdConn(PortFwd *PortFwd) net.Conn {
+	a.PortFwdsMtx.Lock()
+	defer a.PortFwdsMtx.Unlock()
+
+	return PortFwd.Conn
 }
 
 func (a *Agent) PortFwdClose(SocketID int) {
